@@ -127,6 +127,15 @@ func elemComparators(p *Prog, e *Eco, inCompare map[*ssa.Function]bool, field in
 						return true
 					}
 				}
+			case *ssa.Call:
+				// a read helper: partOrZero(parts, i) hands back an element of its sequence argument
+				if g := x.Call.StaticCallee(); g != nil && p.IsRepoFn(g) {
+					for _, a := range x.Call.Args {
+						if _, isSl := a.Type().Underlying().(*types.Slice); isSl && walk(a) {
+							return true
+						}
+					}
+				}
 			case *ssa.Parameter:
 				// a sequence parameter of a helper called from Compare with the field
 				fn := x.Parent()
@@ -167,6 +176,9 @@ func elemComparators(p *Prog, e *Eco, inCompare map[*ssa.Function]bool, field in
 							}
 						}
 						if ph, ok := a.(*ssa.Phi); ok && isElemOfField(ph) {
+							out[g] = true
+						}
+						if cl, ok := a.(*ssa.Call); ok && isElemOfField(cl) {
 							out[g] = true
 						}
 					}
